@@ -286,6 +286,20 @@ Example C08_mux_race_history_closed :
   exists s e, Mux.run (Mux.init 0) race_history = Some (s, e) /\ Mux.cst s = Mux.Closed /\ Mux.nfaults e = 1 /\ opn s = None.
 Proof. eexists. eexists. split; [vm_compute; reflexivity|]. cbn. repeat split. Qed.
 
+(* A closed ThriftMux transport is closed for good: whatever is tried afterwards - requests, Close(), a second Open()
+   (which runs a new _OpenImpl whose loops exit at once and whose opening ping can never be answered) - it never reports
+   Open again, raises no further fault signal and posts nothing but "Sink not open" refusals. *)
+Theorem C08_mux_closed_is_final : forall t0 ls s e l s' e',
+  Mux.run (Mux.init t0) ls = Some (s, e) -> Mux.cst s = Mux.Closed -> Mux.step s l = Some (s', e') ->
+  Mux.cst s' = Mux.Closed /\ Mux.nfaults e' = 0 /\ (forall c k, In (Mux.Post c k) e' -> k = KNotOpen).
+Proof.
+  intros t0 ls s e l s' e' R C St. pose proof (MuxP.run_inv ls _ _ _ (MuxP.inv_init t0) R) as I.
+  split; [eapply step_stays_closed; eassumption|]. split.
+  - destruct (step_faults _ _ _ _ St) as [F|(F & N & _)]; [assumption | contradiction].
+  - intros c k P. eapply closed_posts_notopen; eassumption.
+Qed.
+Print Assumptions C08_mux_closed_is_final.
+
 (* non-vacuity: a request issued while the connect is in progress; the connect is refused; the caller resumes and is
    refused exactly once *)
 Example C08_mux_blocked_example :
